@@ -25,7 +25,7 @@ pub fn gen14(tier: &str, rng: &mut Rng) -> Vec<Spec> {
         let q = |rng: &mut Rng| Rat::new(rng.range(-4, 12) as i128, 8);
         v.push(Spec::new("ab").with("alpha", q(rng).show()).with("beta", q(rng).show()).with("a", q(rng).show()).with("b", Rat::int(rng.range(-5, 5)).show()).with("xs", join_rats(&rand_hist(rng, len, 4))));
     }
-    v
+    with_entry_points(v, rng, &["ab"], 12)
 }
 pub fn exec14(s: &Spec, stats: &mut Stats) -> Outcome {
     let xs = s.rats("xs"); stats.bump(format!("len:{}", xs.len()));
@@ -39,7 +39,7 @@ pub fn exec14(s: &Spec, stats: &mut Stats) -> Outcome {
     }
     let (v0, x0) = if s.has("v0") { (s.rat("v0"), Some(s.rat("x0"))) } else { (Rat::int(0), None) };
     if x0.is_some() { stats.bump("injected-state"); }
-    let mut f = if x0.is_some() { <ab::AlphaBeta<Rat> as signalo_traits::FromGuts>::from_guts((ab::Config { alpha, beta }, ab::State { velocity: v0, value: x0 })) } else { ab::AlphaBeta::with_config(ab::Config { alpha, beta }) };
+    let mut f = if x0.is_some() { <ab::AlphaBeta<Rat> as signalo_traits::FromGuts>::from_guts((ab::Config { alpha, beta }, ab::State { velocity: v0, value: x0 })) } else { prep(ab::AlphaBeta::with_config(ab::Config { alpha, beta }), s, stats) };
     let (ys, p1) = run_all(&mut f, &xs);
     let (_, st) = f.into_guts();
     let xs2: Vec<Rat> = xs.iter().map(|x| a * *x + b).collect();
